@@ -552,6 +552,9 @@ int main(int argc, char **argv)
 			char *hx = nx(); int L = (int)strlen(hx) / 2, k, used; char *s = malloc(L + 1); mpq_t q; mpq_init(q);
 			for (k = 0; k < L; k++) { unsigned v; sscanf(hx + 2 * k, "%2x", &v); s[k] = (char)v; } s[L] = 0;
 			ev_begin(c); J_str("s", s); J_chars("chars", s, L); mpq_set_si(q, 424242, 1); arm(); used = mpq_EGlpNumReadStrXc(q, s); disarm(); J_int("used", used); J_q("v", q); ev_end(NULL); mpq_clear(q); free(s); }
+		else if (!strcmp(c, "restart")) { int k; ev_begin(c); arm();     /* end the library session and start a new one: the host's handler stays registered */
+			for (k = 0; k < MAXH; k++) { if (H[k]) mpq_QSfree_prob(H[k]); H[k] = NULL; if (B[k]) mpq_QSfree_basis(B[k]); B[k] = NULL; }
+			QSexactClear(); QSexactStart(); disarm(); ev_end(NULL); }
 		else if (!strcmp(c, "sleep")) { int ms = nxi(); ev_begin(c); J_int("ms", ms); arm(); usleep((useconds_t)ms * 1000); disarm(); ev_end(NULL); }   /* self-test of the watchdog */
 		else if (!strcmp(c, "shutdown")) { int k, leak = -1; ev_begin(c); arm();
 			for (k = 0; k < MAXH; k++) { if (H[k]) mpq_QSfree_prob(H[k]); H[k] = NULL; if (B[k]) mpq_QSfree_basis(B[k]); B[k] = NULL; }
